@@ -181,8 +181,13 @@ fn pvs(l: &Sx) -> Vec<PossibleValue> {
     l.list()
         .iter()
         .map(|pv| {
-            let items = pv.list();
-            let mut p = PossibleValue::new(items[0].string());
+            // `(hide name alias..)`: a declared value that is only hidden from help and error listings
+            let mut items = pv.list();
+            let hidden = items[0].sym() == "hide";
+            if hidden {
+                items = &items[1..];
+            }
+            let mut p = PossibleValue::new(items[0].string()).hide(hidden);
             for al in &items[1..] {
                 p = p.alias(al.string());
             }
